@@ -522,6 +522,59 @@ Example new_scan :
   scan_file LCSharp cs8 = expected_all cs8 cs8_ds cs8_ds.
 Proof. vm_compute. repeat split; reflexivity. Qed.
 
+(* `async` as a prefix word, and bare blocks (rule io_block) inside a body and right after a function body:
+   async function f ( ) { { y ; } x ; }                 (JavaScript)
+   public async Task F ( ) { x ; } { y ; }              (C#) *)
+Definition js9 : list token :=
+  toks [(0,s_async);(0,s_function);(1,[102]);(2,[40]);(2,[41]);(2,[123]);(2,[123]);(1,[121]);(2,[59]);(2,[125]);(1,[120]);(2,[59]);(2,[125])]%Z.
+Definition js9_ds : list fdesc := [mkFd 2 1 5 5 12].
+Definition cs9 : list token :=
+  toks [(0,[112;117;98]);(0,s_async);(1,[84;97;115;107]);(1,[70]);(2,[40]);(2,[41]);(2,[123]);(1,[120]);(2,[59]);(2,[125]);
+        (2,[123]);(1,[121]);(2,[59]);(2,[125])]%Z.
+Definition cs9_ds : list fdesc := [mkFd 3 3 6 6 9].
+
+Example js9_canonical : canonical_program_of LJavaScript js9 js9_ds.
+Proof.
+  unfold canonical_program_of, js9_ds.
+  let s := eval vm_compute in js9 in change js9 with s.
+  apply (io_func LJavaScript 0 [_] [_; _; _; _] 1 4 _ [_; _; _; _; _; _] _ [] [] []);
+    [reflexivity | | reflexivity | reflexivity | | discriminate | constructor].
+  - apply (fh_function LJavaScript _ _ [_; _]); [reflexivity | reflexivity | reflexivity | apply (one_bgroup _ [] _); reflexivity].
+  - cbn [length Nat.add].
+    apply (io_block LJavaScript 6 _ [_; _] _ [_; _] [] []); [reflexivity | reflexivity | | ].
+    + apply (io_stmt LJavaScript _ [_; _] [] []); [apply one_stmt; reflexivity | constructor].
+    + apply (io_stmt LJavaScript _ [_; _] [] []); [apply one_stmt; reflexivity | constructor].
+Qed.
+
+Example cs9_canonical : canonical_program_of LCSharp cs9 cs9_ds.
+Proof.
+  unfold canonical_program_of, cs9_ds.
+  let s := eval vm_compute in cs9 in change cs9 with s.
+  apply (io_func LCSharp 0 [_; _; _] [_; _; _] 0 3 _ [_; _] _ [_; _; _; _] [] []);
+    [reflexivity | | reflexivity | reflexivity | | discriminate | ].
+  - apply (fh_plain LCSharp _ [_; _]); [reflexivity | reflexivity | apply (one_group _ [] _); reflexivity].
+  - apply (io_stmt LCSharp _ [_; _] [] []); [apply one_stmt; reflexivity | constructor].
+  - cbn [length Nat.add].
+    apply (io_block LCSharp 10 _ [_; _] _ [] [] []); [reflexivity | reflexivity | | constructor].
+    apply (io_stmt LCSharp _ [_; _] [] []); [apply one_stmt; reflexivity | constructor].
+Qed.
+
+Example block_hypotheses :
+  (wf_descs js9 js9_ds /\ lexically_canonical_of LJavaScript js9 js9_ds) /\
+  (wf_descs cs9 cs9_ds /\ lexically_canonical_of LCSharp cs9 cs9_ds).
+Proof.
+  split; split.
+  - apply (canonical_of_wf LJavaScript); [discriminate | exact js9_canonical].
+  - apply (canonical_of_lexical LJavaScript); [discriminate | exact js9_canonical].
+  - apply (canonical_of_wf LCSharp); [discriminate | exact cs9_canonical].
+  - apply (canonical_of_lexical LCSharp); [discriminate | exact cs9_canonical].
+Qed.
+
+Example block_scan :
+  scan_file LJavaScript js9 = expected_all js9 js9_ds js9_ds /\
+  scan_file LCSharp cs9 = expected_all cs9 cs9_ds cs9_ds.
+Proof. vm_compute. split; reflexivity. Qed.
+
 (* the hypotheses of the end-to-end theorem hold of the examples: by the theorems ... *)
 Example ts1_hypotheses : wf_descs ts1 ds1 /\ lexically_canonical_of LTypeScript ts1 ds1.
 Proof.
